@@ -50,6 +50,8 @@ def run(ctx):
     r1 = rep.rule('C11-R1', 'the stream parsers are folds: parse(parse(s, a), b) = parse(s, a ++ b) because each byte is consumed once, in order, reading only that byte and state kept in the parser-state object', floor=4)
     f, m, verb = http_fsm(F)
     seen, trans, prob = explore(m, [(verb + 1,)], is_opaque=lambda s: s == (verb,))
+    fp = m.frame_problems()
+    rep.check(r1, not fp, 'http_parse:loop-is-all', 'outside the byte loop http_parse only sets the cursor to 0 (no look at state or data before the loop, no state store after it): %s' % (fp or 'ok'), '%s:%d' % (hp.file, hp.line))
     rep.check(r1, not prob and not m.impure, 'http_parse:fold', 'extracted transition function over %d states x 256 bytes is total, consumes exactly one byte per step and reads nothing but data[i] and pstate' % len(seen), '%s:%d' % (hp.file, hp.line))
     # the method arm hands (state, data, cursor) to the matcher whose state lives in pstate
     sn = hp.calls(r'Smack::search_next$')
@@ -87,6 +89,9 @@ def run(ctx):
                 calls_on_px.append((t['resolved'] or [t['callee']])[0].split('::')[-1])
     ok = set(calls_on_px) <= {'len', 'index'} and set(kinds) <= {'reborrow', 'len'}
     rep.check(r1, ok, 'search_next:fold', 'the input slice is only measured (len) and sliced from the cursor (px[i..]): %s / %s' % (sorted(set(calls_on_px)), kinds), '%s:%d' % (sw.file, sw.line))
+
+    wp = walker_resume_problems(F)
+    rep.check(r1, not wp, 'search_next:resumes-from-saved-state', 'the walker continues from the saved row and cursor, whatever the segment boundaries: %s' % (wp or 'ok'), '%s:%d' % (sw.file, sw.line))
 
     r2 = rep.rule('C11-R2', 'parser state lives in the flow\'s control block: with a control block the parser gets &mut of the HTTP/RPC variant stored in it (created only when none exists); the protocol id of a flow is sticky', floor=6)
     for g, pname, variant in [(hr, 'proto::http::http_parse', 'HTTP'), (rr, 'proto::rpc::rpc_parse', 'RPC')]:
